@@ -6,7 +6,7 @@ binding:  every chain of the model (all shapes to depth 3, TLC-generated) is ins
           error with unique marker atoms and passed to the real ElideError/ElideAddr in safe and
           unsafe mode; the recorded outcomes are validated by TLC.
 """
-import json
+import json, random
 from vlib.core import Inconclusive
 
 
@@ -51,6 +51,33 @@ def run(ctx):
     match = ctx.devmatcher("LogElideTrace", "LogElideTrace.cfg",
                            [("D6", {"DevOpInnerVerbatim": "TRUE"}), ("D6b", {"DevDnsCauseVerbatim": "TRUE"})])
     ctx.settle(rejected, reexec, describe, devmatch=match)
+    # call sites: what the real handlers hand to the logger (an error that was flattened into text before it reaches
+    # ElideError is not recognised as a network error any more)
+    hbin = ctx.go_test_build("obfs4proxy")
+    hcases, _ = ctx.tlc_emit("Handler", "Handler_MC.cfg", tag="HCASE", label="handler life cycle: kinds x failure points", count=True)
+    hcases = [h for _n, h in hcases]
+    hscen = []
+    for i in range(2 if quick else 10):
+        order = hcases[:]
+        random.Random(ctx.seed * 100 + i).shuffle(order)
+        hscen.append({"id": "handlers%d" % i, "cases": [{"kind": h["kind"], "fail": h["fail"]} for h in order], "seed": ctx.seed * 100 + i})
+    htr = ctx.exec_scenarios(hbin, hscen, "handlers", testbin="TestVerifHandlers", shards=min(8, len(hscen)), timeout=1500)
+    scans = []
+    for t in htr:
+        ls = [e for e in t["events"] if e.get("event") in ("LogScan", "Crash")]
+        if ls:
+            scans.append({"id": t["id"], "scenario": t["scenario"], "events": ls})
+    if not scans:
+        raise Inconclusive("the handler driver produced no log scan")
+    srej = ctx.validate("LogElideTrace", "LogElideTrace.cfg", scans, label="log scan of the real handlers")
+    ctx.log("handlers: %d log files scanned, %d rejected" % (len(scans), len(srej)))
+
+    def sreexec(tr):
+        t2 = ctx.exec_scenarios(hbin, [tr["scenario"]], "handlers-re", testbin="TestVerifHandlers")
+        t2 = [{"id": t["id"], "scenario": t["scenario"], "events": [e for e in t["events"] if e.get("event") in ("LogScan", "Crash")]} for t in t2]
+        rej = ctx.validate("LogElideTrace", "LogElideTrace.cfg", t2, label="re-validation")
+        return rej[0] if rej else None
+    ctx.settle(srej, sreexec, lambda tr: "the log written by the real handlers in safe mode reveals %s" % json.dumps(tr["reject"]["event"])[:300], attempts=2)
     ctx.assumptions += ["errors are built from net.AddrError, DNSError, InvalidAddrError, UnknownNetworkError, OpError, url.Error, "
                         "os.SyscallError, errors.New and fmt.Errorf(%w) nested to depth 3 (4 layers); the text of non-network "
                         "wrapper layers is assumed address-free (the code's documented contract)",
@@ -65,6 +92,13 @@ AddrKinds = {"v4port", "v6port", "nameport", "barev4", "barev6", "barename", "em
 
 def replay(ctx, path):
     v = json.load(open(path))
+    if "cases" in v["scenario"]:       # a handler log scan
+        hbin = ctx.go_test_build("obfs4proxy")
+        t2 = ctx.exec_scenarios(hbin, [v["scenario"]], "replay", testbin="TestVerifHandlers")
+        t2 = [{"id": t["id"], "scenario": t["scenario"], "events": [e for e in t["events"] if e.get("event") in ("LogScan", "Crash")]} for t in t2]
+        for t in ctx.validate("LogElideTrace", "LogElideTrace.cfg", t2, label="replay"):
+            ctx.report_violation(t, "replayed scenario rejected")
+        return ctx.finish("model_checking")
     binary = ctx.go_build("./cmd/c20")
     traces = ctx.exec_scenarios(binary, [v["scenario"]], "replay")
     for t in traces:
